@@ -14,6 +14,7 @@ pub const OPS: &[&str] = &[
     "iter", "list_iter", "into_iter", "get", "index", "is_list", "clone", "eq", "drop", "datum_clone", "datum_eq", "datum_drop",
     "datum_list_iter", "datum_to_value", "to_value", "from_value", "serde_text", "value_list", "value_append", "alist_get",
     "parse_err", "parse_datum_err", "datum_tail", "datum_from_ref", "datum_pair_walk",
+    "parse_spellings",
     "serde_ignored", "serde_unknown_field", "serde_ignored_slot", "serde_text_unknown_field", "serde_tuple_variant", "serde_map",
 ];
 
@@ -58,6 +59,32 @@ pub fn run_op(op: &str, n: usize, dotted: bool) {
         "datum_drop" => { let d = datum(); drop(d); }
         "datum_list_iter" => { let d = datum(); assert!(d.list_iter().unwrap().count() >= n); }
         "datum_to_value" => { let d = datum(); let v: Value = d.into(); assert!(v.is_cons()); }
+        // other spellings of a long list: every cdr written out as a dotted tail
+        // (a . (b . (c . ()))), and every element under a quote shorthand; whether
+        // the reader accepts the text or refuses it (the nesting limit), it must
+        // do so on a bounded stack, from every source, through both APIs
+        "parse_spellings" => {
+            let mut chain = String::with_capacity(8 * n + 8);
+            for i in 0..n { chain.push_str(if i % 2 == 0 { "(1 . " } else { "(x . " }); }
+            chain.push_str(if dotted { "end" } else { "()" });
+            for _ in 0..n { chain.push(')'); }
+            let mut quoted = String::with_capacity(3 * n + 8);
+            quoted.push('(');
+            for i in 0..n { quoted.push_str(if i % 2 == 0 { "'1 " } else { ",x " }); }
+            if dotted { quoted.push_str(". 'end"); }
+            quoted.push(')');
+            for t in [&chain, &quoted] {
+                let a = lexpr::from_str(t).is_ok();
+                let b = lexpr::from_slice(t.as_bytes()).is_ok();
+                let c = lexpr::from_reader(t.as_bytes()).is_ok();
+                // (the datum API through a stream: SliceRead computes each position in O(n))
+                let e = lexpr::datum::from_reader(t.as_bytes()).is_ok();
+                assert!(a == b && b == c && c == e);
+                let mut p = lexpr::Parser::from_str(t);
+                let first = p.next_value();
+                if let Ok(Some(v)) = first { std::mem::forget(v); }
+            }
+        }
         // a long list that ends badly: the parser has to unwind what it has built
         "parse_err" => {
             for bad in [&t[..t.len() - 1], &format!("{}]", &t[..t.len() - 1])[..], &format!("{} . )", &t[..t.len() - 1])[..]] {
